@@ -193,6 +193,21 @@ fn instances(answers: &[Ans], u: &[P]) -> Result<Vec<(P, P)>, String> {
     Ok(out)
 }
 
+/// None: the two runs agree.  "form": the same answers, one by one, with the same ground instances, but a disequality is
+/// reported as a different (equivalent over the universe) set of pairs.  "order": the same answers in another order.
+/// "answers": anything else.
+fn compare_runs(a: &[Ans], b: &[Ans], u: &[P]) -> Option<&'static str> {
+    let ta: Vec<&String> = a.iter().map(|x| &x.text).collect();
+    let tb: Vec<&String> = b.iter().map(|x| &x.text).collect();
+    if ta == tb { return None; }
+    let sig = |x: &Ans| -> (String, String, Vec<(P, P)>) { (showp(&x.x[0]), showp(&x.x[1]), instances(std::slice::from_ref(x), u).unwrap_or_default()) };
+    let sa: Vec<_> = a.iter().map(sig).collect();
+    let sb: Vec<_> = b.iter().map(sig).collect();
+    if sa == sb { return Some("form"); }
+    let (mut x, mut y) = (sa.clone(), sb.clone()); x.sort(); y.sort();
+    if x == y { Some("order") } else { Some("answers") }
+}
+
 fn permutations(n: usize) -> Vec<Vec<usize>> {
     fn rec(cur: &mut Vec<usize>, used: &mut Vec<bool>, n: usize, out: &mut Vec<Vec<usize>>) {
         if cur.len() == n { out.push(cur.clone()); return; }
@@ -222,6 +237,15 @@ fn check_one(rep: &mut Report, prog: &[A], all_perms: bool) {
             Err(e) => rep.fail("tree-program", inp, format!("{} ground solutions", exp.len()), e, "panic"),
             Ok(Err(e)) => rep.fail("tree-program", inp, format!("{} ground solutions", exp.len()), e, cls),
             Ok(Ok(answers)) => {
+                // C09 (deterministic): a second run gives the same sequence of answers (up to the order inside the
+                // constraint sets, which `text` has sorted, and the numbering of reified variables, which it hides)
+                rep.case("determinism", inp.clone());
+                let p3 = p.clone();
+                if let Ok(Ok(again)) = guard_timeout(move || run_real(&p3), 20) {
+                    if let Some(cl) = compare_runs(&answers, &again, &u) {
+                        rep.fail("determinism", inp.clone(), format!("{:?}", answers.iter().map(|x| x.text.clone()).collect::<Vec<_>>()), format!("{:?}", again.iter().map(|x| x.text.clone()).collect::<Vec<_>>()), cl);
+                    }
+                }
                 match instances(&answers, &u) {
                     Err(e) => rep.fail("tree-program", inp, "answers over at most 4 free variables".into(), e, cls),
                     Ok(got) => {
@@ -285,9 +309,28 @@ pub fn search(tier: &str, seed: u64, only: Option<&str>) {
     let n = if tier == "thorough" { 6000 } else { 700 };
     let mut rep = Report::new("diseq", &format!("{} generated pure tree programs (2-4 conjuncts of ==/!= over x0,x1 and a hidden variable, terms of depth <= 2 incl. improper list patterns, at most one 2-branch conde), each in EVERY permutation of its conjuncts, + fixed shapes; ground instances over a 12+ element sub-term-closed universe (seed {})", n, seed));
     for p in fixed() { if only.map_or(true, |o| show(&p).contains(o)) { check_one(&mut rep, &p, true); } }
+    // C09 probe: a program on which the FORM of the reported disequality is known to depend on hash iteration order
+    // (known finding); run up to 40 times so that the dependence shows reliably
+    if only.is_none() { probe(&mut rep, "ne(x2;2) ne([x1];[x0|x0])"); }
     let mut r = Rng(0xD1B54A32D192ED03 ^ (seed.wrapping_mul(0x2545F4914F6CDD1D)) | 1);
     for _ in 0..n { let p = gen(&mut r); check_one(&mut rep, &p, true); }
     rep.print();
+}
+
+fn probe(rep: &mut Report, txt: &str) {
+    let prog = parse(txt);
+    let (u, _) = universe(&prog);
+    rep.case("determinism", format!("probe {}", txt));
+    if let Ok(first) = run_real(&prog) {
+        for _ in 0..40 {
+            if let Ok(again) = run_real(&prog) {
+                if let Some(cl) = compare_runs(&first, &again, &u) {
+                    rep.fail("determinism", txt.to_string(), format!("{:?}", first.iter().map(|x| x.text.clone()).collect::<Vec<_>>()), format!("{:?}", again.iter().map(|x| x.text.clone()).collect::<Vec<_>>()), cl);
+                    break;
+                }
+            }
+        }
+    }
 }
 
 pub fn replay(input: &str) {
@@ -295,6 +338,7 @@ pub fn replay(input: &str) {
     let body = if input.starts_with("eq(") || input.starts_with("ne(") || input.starts_with("or(") { input } else { body };
     let prog = parse(body);
     let mut rep = Report::new("diseq", "replay");
+    if input.starts_with("determinism ") { probe(&mut rep, body); }
     check_one(&mut rep, &prog, false);
     rep.print();
 }
